@@ -76,8 +76,27 @@ func c12Stmt(st ast.Stmt) string {
 	return "other"
 }
 
+// c12Block summarises the statements of a block; a `for .. range` loop is rendered with its body
+func c12Block(list []ast.Stmt) []string {
+	var res []string
+	for _, st := range list {
+		if r, ok := st.(*ast.RangeStmt); ok {
+			res = append(res, "range:"+c05Expr(r.X)+"{"+strings.Join(c12Block(r.Body.List), ";")+"}")
+			continue
+		}
+		if s := c12Stmt(st); s != "other" {
+			res = append(res, s)
+		}
+	}
+	return res
+}
+
 func factsC12() {
 	inst := "pkg/haproxy/instance.go"
+	// writeConfig: modsec, one errorfile per HAProxy based response, responses.lua, haproxy.cfg, the shard files;
+	// no guard around the response files, every failed write returns at once
+	addStrList("c12WriteConfigStmts", c12Block(methodDecl(inst, "instance", "writeConfig").Body.List),
+		"instance.writeConfig: top-level statements in source order (range loops with their body)")
 	// HAProxyUpdate: the deferred Commit comes before every write; every failed write returns at once
 	var upd []string
 	for _, st := range methodDecl(inst, "instance", "HAProxyUpdate").Body.List {
@@ -158,6 +177,32 @@ func factsC12() {
 		return true
 	})
 	addStrList("c12ForceRewrite", fr, "config.ForceRewrite: assignments and calls")
+	// config.Shrink: a global config that differs from the one of the last commit (kept over Clear in globalPrev,
+	// dropped by Commit) forces the rewrite too
+	var shr []string
+	for _, st := range methodDecl(cfgf, "config", "Shrink").Body.List {
+		s := c12Stmt(st)
+		if ifs, ok := st.(*ast.IfStmt); ok {
+			for _, b := range ifs.Body.List {
+				if e, ok := b.(*ast.ExprStmt); ok {
+					if c, ok := e.X.(*ast.CallExpr); ok {
+						s += "=>" + c05Expr(c.Fun)
+					}
+				}
+			}
+		}
+		shr = append(shr, s)
+	}
+	addStrList("c12ShrinkStmts", shr, "config.Shrink: top-level statements, with the calls of an if body")
+	var gp []string
+	for _, m := range []string{"Clear", "Commit"} {
+		for _, a := range methodAssigns(cfgf, "config", m) {
+			if strings.Contains(a, "globalPrev") {
+				gp = append(gp, m+":"+a)
+			}
+		}
+	}
+	addStrList("c12GlobalPrev", gp, "config.Clear / config.Commit: assignments that involve globalPrev")
 	firstIf := func(name string) []string {
 		var res []string
 		ast.Inspect(methodDecl(cfgf, "config", name).Body, func(n ast.Node) bool {
